@@ -109,13 +109,13 @@ def gen(tape):
             if not chained:
                 menu += [(1, "chain")]
         elif chained and not inner_fired:
-            menu += [(3, "fire_inner")]
+            menu += [(3, "fire_inner"), (2, "fail_inner")]
         op = tape.weighted("program", menu, "op")
         if op in ("fire", "fail"):
             fired = True
         if op == "chain":
             chained = True
-        if op == "fire_inner":
+        if op in ("fire_inner", "fail_inner"):
             inner_fired = True
         ops.append([op, tape.chance("program", 1, 2, "inner-verdict") if op in ("succeeded", "failed") else None])
     return ops
@@ -155,6 +155,11 @@ def run_deferred_history(tape, out):
                     v = _value(tape, n)
                     state[:] = ["value", v]
                     nested[0].callback(v)
+            elif op == "fail_inner":
+                if st == "paused":
+                    e = _exc(tape, n)
+                    state[:] = ["failure", e]
+                    nested[0].errback(Failure(e))
             elif op == "cb":
                 rec = []
                 seen_by_cb.append(rec)
